@@ -95,7 +95,7 @@ def evalPost (f : FsCfg) (s : Sys) : List String :=
   (if w.tape.any (fun it => match it with
       | .recd h _ _ _ => (h.pax.get Gen.recSTFSRecordReplacesName).isSome
       | .trailer => false) then ["tapeHasMoveRecord"] else []) ++
-  (if f.c.emptyDecodeFails && w.idx.rows.any (fun r => r.live && r.hdr.isRegular && r.hdr.size == 0 &&
+  (if f.c.emptyRestoreFails && w.idx.rows.any (fun r => r.live && r.hdr.isRegular && r.hdr.size == 0 &&
         (r.hdr.pax.get Gen.recSTFSRecordUncompressedSize).isNone) then ["only:emptyFileUnderCodec"] else []) ++
   (if anyListingDeviates w then ["listingDeviates"] else []) ++
   (if anyListingDeviates rebuilt then ["listingDeviatesAfterRebuild"] else [])
